@@ -87,3 +87,24 @@ def structured_event(rng, g):
     ev.append([{"k": "C", "n": GE.ALPHA[c], "s": None, "i": [[GE.ALPHA[a], sa if rng.random() < 0.8 else not sa]]}, [GE.ALPHA[c], sc]])
     ev.append([{"k": "V", "n": GE.ALPHA[c], "s": None}, [GE.ALPHA[c], (not sc) if rng.random() < 0.7 else sc]])
     return ev
+
+
+def two_parent_event(rng, g):
+    """Events {Z_{d,e} = z, D = d [, E = e']}: a node intervened on two of its parents, one of which is also observed at the
+    intervened value - the world-copies of Z may be merged only if ALL differing parents attain the same values."""
+    nodes = g["nodes"]
+    parents = {v: sorted({a for a, b in g["dir"] if b == v}) for v in nodes}
+    cands = [v for v in nodes if len(parents[v]) >= 2]
+    if not cands:
+        return None
+    z = rng.choice(cands)
+    d, e = rng.sample(parents[z], 2)
+    sd, se, sz = rng.random() < 0.3, rng.random() < 0.3, rng.random() < 0.5
+    ev = [[{"k": "C", "n": GE.ALPHA[z], "s": None, "i": sorted([[GE.ALPHA[d], sd], [GE.ALPHA[e], se]])}, [GE.ALPHA[z], sz]],
+          [{"k": "V", "n": GE.ALPHA[d], "s": None}, [GE.ALPHA[d], sd]]]
+    r = rng.random()
+    if r < 0.3:
+        ev.append([{"k": "V", "n": GE.ALPHA[e], "s": None}, [GE.ALPHA[e], se if rng.random() < 0.5 else not se]])
+    elif r < 0.5:
+        ev.append([{"k": "V", "n": GE.ALPHA[z], "s": None}, [GE.ALPHA[z], sz if rng.random() < 0.5 else not sz]])
+    return ev
